@@ -147,17 +147,35 @@ Theorem C14_protocol_finalize_disciplined : forall size D u, Good size D u ->
   (forall fuel o atom, Good size D (water_finalize size D fuel o atom u)).
 Proof. exact T_protocol_finalize_disciplined. Qed.
 
-(* ANY sequence of the modelled protocols after assign_cells: every query issued
-   inside or between them equals brute force over the atoms that were in the
-   structure at that moment, and so does any query on the final state *)
+(* static half of "the block used for atom a was queried for a": every loop over a
+   get_near_cells block iterates it in the statement list where it was queried,
+   unconditionally, and the block variable has no other binding (table from the source) *)
+Theorem C14_blocks_used_where_queried : forallb (fun r => snd r) query_use = true.
+Proof. exact blocks_used_where_queried. Qed.
+
+(* why that matters: a block queried for atom 0 and used for its group mate 1 misses
+   atom 2, which is within range of atom 1 and in the block queried for atom 1 *)
+Theorem C14_block_reuse_misses :
+  Good 5 10 reuse_u /\
+  let q := mkQ 0%nat 1%nat (cs reuse_u) (present reuse_u) in
+  q_present q 2%nat = true /\ within 50 (q_cs q) (q_used q) 2%nat = true /\
+  ~ In 2%nat (get_near_cells 5 (q_cs q) (q_atom q)) /\
+  In 2%nat (get_near_cells 5 (q_cs q) (q_used q)).
+Proof. exact block_reuse_misses. Qed.
+
+(* ANY sequence of the modelled protocols after assign_cells: every block of
+   neighbours is used for the atom it was queried for, and after distance
+   filtering around THAT atom it equals brute force over the atoms that were in the
+   structure at that moment; so does any query on the final state *)
 Theorem C14_histories_of_protocols : forall size D, 0 < size -> 0 < D ->
   forall atoms u0 cl,
   NoDup atoms -> (forall a, In a atoms <-> present u0 a = true) -> alloc u0 ->
   let u := run_calls size D cl (assign_cells size D atoms u0) in
-  (forall q, In q (qlog u) -> q_present q (q_atom q) = true ->
+  (forall q, In q (qlog u) -> q_used q = q_atom q) /\
+  (forall q, In q (qlog u) -> q_present q (q_used q) = true ->
      forall b c0, 0 <= c0 <= D * size ->
-     (In b (filter (within c0 (q_cs q) (q_atom q)) (get_near_cells size (q_cs q) (q_atom q))) <->
-      q_present q b = true /\ b <> q_atom q /\ within c0 (q_cs q) (q_atom q) b = true)) /\
+     (In b (filter (within c0 (q_cs q) (q_used q)) (get_near_cells size (q_cs q) (q_atom q))) <->
+      q_present q b = true /\ b <> q_used q /\ within c0 (q_cs q) (q_used q) b = true)) /\
   (forall a, present u a = true -> forall b c0, 0 <= c0 <= D * size ->
      (In b (filter (within c0 (cs u) a) (get_near_cells size (cs u) a)) <->
       present u b = true /\ b <> a /\ within c0 (cs u) a b = true)).
@@ -195,5 +213,7 @@ Print Assumptions C14_protocol_try_both_disciplined.
 Print Assumptions C14_protocol_finalize_disciplined.
 Print Assumptions C14_protocol_get_positions_disciplined.
 Print Assumptions C14_get_positions_regression.
+Print Assumptions C14_blocks_used_where_queried.
+Print Assumptions C14_block_reuse_misses.
 Print Assumptions C14_histories_of_protocols.
 Print Assumptions C14_history_nonvacuous.
